@@ -1,7 +1,9 @@
 """C04 - file serving is confined to the configured root directory / file."""
 import errno
+import itertools
 import json
 import os
+import shutil
 import sys
 
 import common
@@ -26,7 +28,7 @@ def _hook(event, args):
 sys.addaudithook(_hook)
 
 ALPHABET = ["/", ".", "..", "a", "f.txt", "%2e", "%2f", "%2F", "%5c", "\\", "%00", "\0", "%c0%af", "%ff", "?x", "//",
-            "%25", "secret.txt", "root-evil", "%41", "sub", "%3f", "%3F"]
+            "%25", "secret.txt", "root-evil", "%41", "sub", "%3f", "%3F", "%ef%bc%8f"]
 
 TREE = {
     "secret.txt": "TOP SECRET above the root\n",
@@ -50,6 +52,14 @@ TREE = {
     "root/f.txt?x": "root/f.txt?x (named by f.txt%3fx)\n",
     "root/a?": "root/a? (named by a%3f)\n",
 }
+
+HIST_OPS = ["R", "G", "A", "D", "W1", "W2"]
+HIST_CONTENT = {"W0": "zero\n", "W1": "one one\n", "W2": "two two two\n"}
+
+
+class HistObs(list):
+    """observations of the request steps of one history"""
+
 
 KIND = {"file": 0, "ENOENT": 1, "EISDIR": 2, "ENOTDIR": 3, "ENAMETOOLONG": 4, "EACCES": 5, "OTHER": 6}
 
@@ -177,11 +187,29 @@ class C04(Check):
         n_all = 3 if tier == "quick" else 4
         if os.environ.get("C04_N"):
             n_all = int(os.environ["C04_N"])
+        # histories: one long-lived handler, template cache enabled, requests interleaved with removal / replacement
+        # by a directory / rewriting of the served file
+        hl = 4 if tier == "quick" else 5
+        k = 0
+        for n in range(1, hl + 1):
+            for ops in itertools.product(HIST_OPS if n < hl else [o for o in HIST_OPS if o != "G"], repeat=n):
+                if "R" not in ops:
+                    continue
+                k += 1
+                hcfg = mkcfg("/", False, True, "")
+                hcfg["target"] = "hroot"
+                yield {"tftp": bool(k % 2), "cfg": hcfg, "uri": "/f.txt", "hist": list(ops)}
+        for _ in range(100 if tier == "quick" else 300):
+            ops = ["R"] + [rng.choice(HIST_OPS) for _ in range(rng.randrange(4, 10))]
+            yield {"tftp": bool(rng.randrange(2)), "cfg": mkcfg("/", False, True, "") | {"target": "hroot"}, "uri": "/f.txt",
+                   "hist": ops}
         for ci, cfg in enumerate(cfgs):
             main = (cfg["rpath"] == "/" and not cfg["filemode"] and cfg.get("target_raw") is None)
             n = n_all if (main and not cfg["suffix"] and (tier == "quick" or not cfg["template"])) else n_all - 1
             if cfg.get("target_raw") not in (None, "root") and tier != "quick":
                 n = n_all - 2
+            if tier != "quick" and not main and cfg["template"] and cfg["rpath"] != "/" and cfg.get("target_raw") is None:
+                n = n_all - 2     # the non-template twin of this configuration keeps the larger scope
             strings_all = list(fileh.tokens_upto(ALPHABET, n))
             strings_tftp = strings_all if (tier == "quick" or n < 4) else list(fileh.tokens_upto(ALPHABET, n - 1))
             for tftp in (False, True):
@@ -195,7 +223,10 @@ class C04(Check):
                               pre + "/f.txt/a", pre + "/a/f.txt/..", pre + "/a", pre + "/a/", pre + "/../secret.txt",
                               pre + "/%2e%2e/secret.txt", pre + "/..%2fsecret.txt", pre + "/../root-evil/f.txt",
                               pre + "/a/../f.txt", pre + "/%2541", pre + "/f.txt%00", pre + "/a\\f.txt", pre + "/..a",
-                              pre + "//f.txt", pre + "/a//f.txt", pre + "/./f.txt", pre + "/f.txt/", pre + "/f.txt/."):
+                              pre + "//f.txt", pre + "/a//f.txt", pre + "/./f.txt", pre + "/f.txt/", pre + "/f.txt/.",
+                              pre + "/..%ef%bc%8froot-evil%ef%bc%8ff.txt", pre + "/%ef%bc%8e%ef%bc%8e/secret.txt",
+                              pre + "/a%ef%bc%8ff.txt", pre + "/" + "%c3%a4" * 200, pre + "/" + "b" * 253 + ".j",
+                              pre + "/a/" * 1 + "/".join(["b" * 200] * 25)):
                         if u not in seen:
                             seen.add(u)
                             yield {"tftp": tftp, "cfg": cfg, "uri": u}
@@ -211,7 +242,7 @@ class C04(Check):
                                 seen.add(u)
                                 yield {"tftp": tftp, "cfg": cfg, "uri": u}
                     # random longer requests and over-long segments
-                    for _ in range(150 if tier == "quick" else 800):
+                    for _ in range(150 if tier == "quick" else 500):
                         k = rng.randrange(n + 1, n + 6)
                         u = pre + "".join(rng.choice(ALPHABET) if rng.random() < 0.85 else
                                           rng.choice(["%%%02x" % rng.randrange(256), chr(rng.randrange(1, 256)),
@@ -231,6 +262,9 @@ class C04(Check):
         h = self.handler(cfg, tftp)
         if h is None:
             return [False, False, [], 4, b""]
+        return self.run_request(h, cfg, tftp, uri)
+
+    def run_request(self, h, cfg, tftp, uri):
         ctx = h.prepare_context(uri)
         can = bool(h.can_handle(uri, ctx))
         if not can:
@@ -248,51 +282,124 @@ class C04(Check):
         return [True, True, opened, cls, body if body is not None else b""]
 
     def cfgline(self, c):
-        return [c["tftp"], bool(c.get("old232")), fileh.cfg_sx(c["cfg"]), c["uri"]]
+        return [c["tftp"], bool(c.get("old232")), bool(c.get("cached")), fileh.cfg_sx(c["cfg"]), c["uri"]]
 
     def line(self, c, obs):
         raise NotImplementedError   # evaluate() builds the lines (two passes)
 
     def canon(self, obs):
+        if isinstance(obs, HistObs):
+            # with the cache, whether a request opens its file depends on the history: the opened paths are judged
+            # (confined) but not compared
+            return [deep_sxstr([o[0], o[1], [], o[3], o[4]]) for o in obs]
         return deep_sxstr(obs)
 
     def evaluate(self, cases):
         self.tree()
-        obs = [self.impl(c) for c in cases]
-        # pass 1: which paths does the model want the oracle for?
-        q = run_model(self.ident, [sx([0] + self.cfgline(c)) for c in cases])
-        lines = []
-        for c, o, ans in zip(cases, obs, q):
-            if ans.startswith("#"):
-                raise RuntimeError(f"C04: driver rejected query for {c['uri']!r}")
-            wanted = unsx(ans)
-            paths = []
-            for w in wanted:
-                paths.append(w.decode("latin-1") if isinstance(w, bytes) else "".join(chr(x) for x in w))
-            for p in o[2]:
-                if p not in paths:
-                    paths.append(p)
-            table = [[sxstr(p)] + probe(p) for p in paths]
-            lines.append(sx([1] + self.cfgline(c) + [table, self.canon(o)]))
-        outs = run_model(self.ident, lines)
-        res = []
-        for c, o, ln, out in zip(cases, obs, lines, outs):
-            if out.startswith("!") or out.startswith("#"):
-                raise RuntimeError(f"{self.ident}: driver rejected case {ln[:300]} -> {out[:100]}")
-            r = unsx(out)
-            res.append((c, o, r[0], names(r[1]), names(r[2]), r[3:]))
-        return res
+        out = [None] * len(cases)
+        plain = [(i, c) for i, c in enumerate(cases) if "hist" not in c]
+        if plain:
+            obs = [self.impl(c) for _, c in plain]
+            q = run_model(self.ident, [sx([0] + self.cfgline(c)) for _, c in plain])
+            lines = [self.full_line(c, o, self.paths_of(ans, c), None) for (_, c), o, ans in zip(plain, obs, q)]
+            outs = run_model(self.ident, lines)
+            for (i, c), o, ln, res in zip(plain, obs, lines, outs):
+                r = self.parse_out(ln, res)
+                out[i] = (c, o, r[0], names(r[1]), names(r[2]), r[3:])
+        for i, c in enumerate(cases):
+            if "hist" in c:
+                out[i] = self.eval_history(c)
+        return out
+
+    def paths_of(self, ans, c):
+        if ans.startswith("#") or ans.startswith("!"):
+            raise RuntimeError(f"C04: driver rejected query for {c['uri']!r}")
+        return [w.decode("latin-1") if isinstance(w, bytes) else "".join(chr(x) for x in w) for w in unsx(ans)]
+
+    def full_line(self, c, o, wanted, table):
+        """table = None: ask the file system now"""
+        if table is None:
+            table = self.probe_table(wanted, o)
+        return sx([1] + self.cfgline(c) + [table, deep_sxstr(list(o))])
+
+    def probe_table(self, wanted, o):
+        paths = list(wanted)
+        for p in o[2]:
+            if p not in paths:
+                paths.append(p)
+        return [[sxstr(p)] + probe(p) for p in paths]
+
+    def parse_out(self, ln, res):
+        if res.startswith("!") or res.startswith("#"):
+            raise RuntimeError(f"{self.ident}: driver rejected case {ln[:300]} -> {res[:100]}")
+        return unsx(res)
+
+    # ---- histories on one long-lived handler with the template cache enabled (the default)
+    def set_state(self, rel, state):
+        p = os.path.join(fileh.base_dir(), rel)
+        if os.path.isdir(p) and not os.path.islink(p):
+            shutil.rmtree(p)
+        elif os.path.lexists(p):
+            os.remove(p)
+        if state == "dir":
+            os.makedirs(p)
+        elif state is not None:
+            fileh.write_file(rel, state)
+
+    def eval_history(self, c):
+        cfg, tftp = c["cfg"], c["tftp"]
+        uris = {"R": "/f.txt", "G": "/g.txt"}
+        subs = {op: dict(c, uri=u, cached=True) for op, u in uris.items()}
+        q = run_model(self.ident, [sx([0] + self.cfgline(subs[op])) for op in ("R", "G")])
+        wanted = {op: self.paths_of(ans, subs[op]) for op, ans in zip(("R", "G"), q)}
+        # fresh tree and fresh handler for every history
+        shutil.rmtree(os.path.join(fileh.base_dir(), cfg["target"]), ignore_errors=True)
+        self.set_state(cfg["target"] + "/f.txt", HIST_CONTENT["W0"])
+        self.set_state(cfg["target"] + "/g.txt", "gee\n")
+        h = fileh.build(cfg, tftp, template_cache=True)
+        h.set_data_source(RecordingSource({}, []))
+        steps = []
+        for op in c["hist"]:
+            if op in uris:
+                o = self.run_request(h, cfg, tftp, uris[op])
+                # the file-system oracle is asked at this moment, before the next change
+                steps.append((subs[op], o, self.probe_table(wanted[op], o)))
+            elif op == "A":
+                self.set_state(cfg["target"] + "/f.txt", None)
+            elif op == "D":
+                self.set_state(cfg["target"] + "/f.txt", "dir")
+            else:
+                self.set_state(cfg["target"] + "/f.txt", HIST_CONTENT[op])
+        lines = [self.full_line(sc, o, None, tb) for sc, o, tb in steps]
+        outs = run_model(self.ident, lines) if lines else []
+        m, fm, fi = [], [], []
+        for ln, res in zip(lines, outs):
+            r = self.parse_out(ln, res)
+            m.append(r[0])
+            fm.extend(x for x in names(r[1]) if x not in fm)
+            fi.extend(x for x in names(r[2]) if x not in fi)
+        return (c, HistObs(o for _, o, _ in steps), m, fm, fi, [])
 
     def nontrivial(self, c, obs):
+        if "hist" in c:
+            return ("hist", c["tftp"], tuple(c["hist"])) if any(op in "ADW1W2" for op in c["hist"]) else None
         u = c["uri"]
         if obs[1] and not c["cfg"]["filemode"] and (obs[3] != 3 or any(t in u for t in ("%", "..", "\\", "\0", "//", "/./"))):
             return (json.dumps(c["cfg"], sort_keys=True), c["tftp"], u)
         return None
 
     def show(self, c):
+        if "hist" in c:
+            return {"tftp": c["tftp"], "cfg": c["cfg"], "uri": "history " + " ".join(c["hist"]), "hist": c["hist"],
+                    "legend": "R/G = request /f.txt, /g.txt; A = remove f.txt; D = replace it by a directory; "
+                              "W1/W2 = rewrite it; one handler, template cache enabled"}
         return {"tftp": c["tftp"], "cfg": c["cfg"], "uri": c["uri"], "uri_hex": c["uri"].encode("latin-1").hex()}
 
     def shrink(self, c):
+        if "hist" in c:
+            for i in range(len(c["hist"])):
+                yield dict(c, hist=c["hist"][:i] + c["hist"][i + 1:])
+            return
         u = c["uri"]
         order = sorted(ALPHABET, key=len, reverse=True)
         toks, i = [], 0
